@@ -1,13 +1,20 @@
 use crate::analysis::AvailableValue;
 use crate::cfg::Cfg;
-use crate::parser::{HasRegisterSets, Register};
+use crate::parser::{HasIdentity, HasRegisterSets, Register};
 use crate::passes::{DiagnosticManager, LintError, LintPass};
+use std::collections::HashSet;
 
 // Check if the values of callee-saved registers are restored to the original value at the end of the function
 pub struct CalleeSavedRegisterCheck;
 impl LintPass for CalleeSavedRegisterCheck {
     fn run(cfg: &Cfg, errors: &mut DiagnosticManager) {
+        // A function with several entry labels appears once per label in the
+        // function table: check it only once.
+        let mut checked = HashSet::new();
         for func in cfg.functions().values() {
+            if !checked.insert(func.id()) {
+                continue;
+            }
             let exit_vals = func.exit().reg_values_in();
             for reg in &Register::callee_saved_set() {
                 match exit_vals.get(&reg) {
